@@ -8,7 +8,8 @@
    that regenerated configuration, for ANY number of threads running ANY programs
    (sequences of API calls whose bodies touch library state and invoke callbacks of the four
    macro kinds and the I/O wait, the callbacks calling the API again, to any depth). *)
-From LibcoapV Require Import Base.Tactics Lock.LockModel Lock.LockProofs Gen.LockConfig.
+From LibcoapV Require Import Base.Tactics Lock.LockModel Lock.LockProofs Lock.LockBounds
+  Gen.LockConfig.
 Local Open Scope Z_scope.
 
 (* the configuration found in the tree follows the discipline: locking compiled in, reported as
@@ -95,6 +96,16 @@ Theorem C13_counters : forall (progs : list lk_calls) s,
   0 <= lk_incb (lk_l s) /\ 0 <= lk_cnt (lk_l s) /\ (lk_incb (lk_l s) = 0 -> lk_cnt (lk_l s) = 0).
 Proof. exact (lk_cfg_counters lk_gen_cfg C13_config_ok). Qed.
 Print Assumptions C13_counters.
+
+(* ... and never exceed the frame-stack height the programs need (one frame per nested call,
+   callback and access): the uint32_t counters of the C code hold the model's values for every
+   program nested less than 2^31 deep *)
+Theorem C13_counters_bounded : forall (progs : list lk_calls) D s,
+  0 <= D -> Forall (fun p => lk_height p <= D) progs ->
+  lk_reach (lk_init (map (lk_flat lk_gen_cfg) progs)) s ->
+  0 <= lk_incb (lk_l s) <= D /\ 0 <= lk_cnt (lk_l s) <= D.
+Proof. exact (lk_cfg_counters_bounded lk_gen_cfg C13_config_ok). Qed.
+Print Assumptions C13_counters_bounded.
 
 (* the same for arbitrary instruction streams that pass the bracket checker lk_wfprog (more
    general than the streams of structured programs) *)
